@@ -2745,6 +2745,13 @@ def run(ctx):
 
     check_preconditions(ctx, f)
 
+    # the one panic arm of validation that a *length* keeps out of reach: SignedAttrs::encode_verify can write lengths up to
+    # 65535 and panics beyond; the decoder must refuse longer captures (decoder limit and encoder limit are two sites that
+    # have to agree), and the header the encoder writes is decided for every length region
+    ctx.rule("R-REG", "outcome regions by abstract interpretation equal the spec table")
+    ctx.rule("R-GRD", "success requires the guard literal")
+    K.check_encode_verify(ctx, f)
+
     # ---- invariant owners ------------------------------------------------------------------------------
     for adt, (reviewed, inv) in sorted(INVARIANT_TYPES.items()):
         rec = f.adts.get(adt)
